@@ -3,31 +3,33 @@
 Families
   witness   the rational witnesses of the `_refuted` theorems of Props/C13.v replayed on the
             implementation (EKF innovation, UKF sigma points / cross covariance, PF likelihood,
-            LTI incompatibility) -> recorded findings
-  ekf/ukf   single steps on random systems  f(x,u) = A x + B u + c1 + a.*x.*x,  h likewise
+            pypose.module.LTI incompatibility) -> recorded findings
+  ekf/ukf   single steps on systems  f(x,u) = A x + B u + c1 + a.*pad(x.*x),  h likewise
             (a = b = 0: linear), dims 1..6, SPD non-diagonal Q, R, P over 6 orders of magnitude:
-            implementation vs the Coq model evaluated over Q (exact inverse, Cholesky with a
-            2^-100 square root) within 1e-6 of the natural scale, and vs an independent mpmath
-            Kalman filter (the property's oracle)
+            implementation vs the Coq model (vm_compute, 320-bit fixed point, exact-inverse and
+            Cholesky routines of Base/Mat.v) within 1e-6 of the natural scale, and vs an independent
+            40-digit mpmath Kalman filter (the property's oracle); deviations are accepted as the
+            recorded finding only when they coincide with the recorded deviation exactly
   run       runs of up to 50 steps: every step is tied to the model from the implementation's
-            previous state (a run is the fold of the one-step map), the final state is compared with
-            the oracle run, returned covariances are checked symmetric / PSD
+            previous state (a run is the fold of the one-step map), every step is judged by the
+            oracle, returned covariances are checked symmetric / PSD
   pf        the normal and uniform draws are recorded and replayed: particles, Gaussian
-            log-likelihood differences, resampling + mean + covariance against the model over Q;
+            log-likelihood differences, resampling + mean + covariance against the model;
             softmax against mpmath; Monte-Carlo band (>= 6 sigma) against the closed-form posterior
-            mean of the particle model
+            mean of the particle model (documented and as coded)
 """
 import math
 from ..common import *
 
-RULE = ('one case = one filter call (system, Q, R, x, y, u, P, k); non-trivial = state dimension >= 2 with non-diagonal P '
-        'or a nonlinear system; distinct by all numeric inputs; directed block: every dimension pair, every k class '
-        '(None, 0, positive, negative, fractional), both system classes, linear and nonlinear, tiny/huge covariance scales')
+RULE = ('one case = one filter call (system, Q, R, x, y, u, P, k); non-trivial = state dimension >= 2 (non-diagonal P) '
+        'or a nonlinear system; distinct by all numeric inputs; directed block: the Coq witnesses, every state dimension 1..6, '
+        'every k class (None, 0, positive, negative, fractional), both system classes, linear and nonlinear, extreme covariance '
+        'scales; PF cases: distinct by recorded draws')
 
 REL = 1e-6           # tolerance relative to the natural scale of the quantity (model tie and oracle)
-K_EKF = 'EKF.forward:linear-system:innovation-taken-at-pre-transition-state'
+K_EKF = 'EKF.forward:innovation-taken-at-pre-transition-state'
 K_UKF_SIG = 'UKF.sigma_weight_points:non-diagonal-P:rows-of-lower-cholesky-factor'
-K_UKF = 'UKF.forward:linear-system:differs-from-kalman-filter'
+K_UKF = 'UKF.forward:linear-system:differs-from-kalman-filter:rows-of-factor+mixed-sigma-sets'
 K_PF = 'PF.forward:likelihood-evaluated-at-pre-transition-particles'
 K_LTI = 'EKF.forward:model=pypose.module.LTI:TypeError'
 
@@ -38,11 +40,13 @@ def np_():
     return numpy
 
 
-def spd(rng, n, scale):
+def spd(rng, n, scale, diagonal=False):
     """symmetric positive definite, non-diagonal for n >= 2, condition number <~ 60, overall size `scale`"""
     np = np_()
     G = np.array([[rng.gauss(0, 1) for _ in range(n)] for _ in range(n)])
     M = G @ G.T / n + 0.25 * np.eye(n)
+    if diagonal:
+        M = np.diag(np.diag(M))
     M = (M + M.T) / 2 * scale
     return M.tolist()
 
@@ -50,35 +54,30 @@ def spd(rng, n, scale):
 def gen_system(rng, n, m, p, nonlinear=False):
     g = lambda r, c, s: [[rng.gauss(0, 1) * s for _ in range(c)] for _ in range(r)]
     v = lambda d, s: [rng.gauss(0, 1) * s for _ in range(d)]
-    S = dict(A=g(n, n, 0.9 / math.sqrt(n)), B=g(n, p, 1.0), C=g(m, n, 1.0), D=g(m, p, 1.0), c1=v(n, 1.0), c2=v(m, 1.0),
-             a=v(n, 0.15) if nonlinear else [0.0] * n, b=v(m, 0.15) if nonlinear else [0.0] * m)
-    return S
+    return dict(A=g(n, n, 0.9 / math.sqrt(n)), B=g(n, p, 1.0), C=g(m, n, 1.0), D=g(m, p, 1.0), c1=v(n, 1.0), c2=v(m, 1.0),
+                a=v(n, 0.15) if nonlinear else [0.0] * n, b=v(m, 0.15) if nonlinear else [0.0] * m)
 
 
-def gen_case(rng, n, m, p, nonlinear=False, scales=None, k='none'):
+def gen_case(rng, n, m, p, nonlinear=False, scales=None, k=None, diagonal=False):
     S = gen_system(rng, n, m, p, nonlinear)
     sc = scales or [10.0 ** rng.uniform(-3, 3) for _ in range(3)]
-    c = dict(S=S, Q=spd(rng, n, sc[0]), R=spd(rng, m, sc[1]), P=spd(rng, n, sc[2]),
-             x=[rng.gauss(0, 1) * 2 for _ in range(n)], u=[rng.gauss(0, 1) for _ in range(p)],
-             y=[rng.gauss(0, 1) * 3 for _ in range(m)], k=None if k == 'none' else k)
-    return c
+    return dict(S=S, Q=spd(rng, n, sc[0]), R=spd(rng, m, sc[1]), P=spd(rng, n, sc[2], diagonal),
+                x=[rng.gauss(0, 1) * 2 for _ in range(n)], u=[rng.gauss(0, 1) for _ in range(p)],
+                y=[rng.gauss(0, 1) * 3 for _ in range(m)], k=k)
 
 
 def is_linear(S):
     return not any(S['a']) and not any(S['b'])
 
 
-def padsq_list(x, d):
-    sq = [t * t for t in x]
-    return (sq + [0.0] * d)[:d]
-
-
 def build_system(pp, torch, S, kind):
     """the user's system object: 'nls' = subclass of pp.module.NLS (A, C by autograd),
-    'sys' = subclass of pp.module.System with explicit A, B, C, D (linear only)"""
+    'sys' = subclass of pp.module.System with explicit A, B, C, D (linear only), 'lti' = pp.module.LTI"""
     T = lambda v: torch.tensor(v, dtype=torch.float64)
     A, B, C, D, c1, c2, a, b = (T(S[q]) for q in ('A', 'B', 'C', 'D', 'c1', 'c2', 'a', 'b'))
     n, m = len(S['c1']), len(S['c2'])
+    if kind == 'lti':
+        return pp.module.LTI(A, B, C, D, c1, c2)
 
     def padsq(x, d):
         sq = x * x
@@ -107,7 +106,6 @@ def build_system(pp, torch, S, kind):
 
         def observation(self, state, input, t=None):
             return h(state, input)
-        A_ = property(lambda self: A)
     Sys2.A = property(lambda self: A)
     Sys2.B = property(lambda self: B)
     Sys2.C = property(lambda self: C)
@@ -126,71 +124,141 @@ def impl_step(pp, torch, filt_name, c, kind='nls', model=None):
     return [float(v) for v in x.tolist()], [[float(v) for v in row] for row in P.tolist()]
 
 
-# ------------------------------------------------------------------------------------------------ oracle (mpmath)
+# ------------------------------------------------------------------------------------------------ oracles (mpmath, 40 digits)
 def mpm():
     import mpmath
     mpmath.mp.dps = 40
     return mpmath
 
 
-def oracle_kf(c, innov_at_prior=False, x=None, P=None, y=None, u=None):
-    """textbook Kalman predict-then-update for x' = f(x,u), y = h(x',u) linearised at the prior mean
-    (exact Kalman filter when the system is linear).  innov_at_prior=True: the recorded deviation of
-    EKF.forward (innovation y - h(x, u) at the pre-transition state)."""
-    mp = mpm()
-    S = c['S']
-    M = lambda a: mp.matrix(a)
-    V = lambda a: mp.matrix([[mp.mpf(t)] for t in a])
-    x = V(c['x'] if x is None else x)
-    u = V(c['u'] if u is None else u)
-    y = V(c['y'] if y is None else y)
-    P = M(c['P'] if P is None else P)
-    n, m = len(S['c1']), len(S['c2'])
+class Sysmp:
+    """the system family in mpmath"""
+    def __init__(self, S):
+        mp = mpm()
+        self.mp, self.S = mp, S
+        self.n, self.m = len(S['c1']), len(S['c2'])
+        self.M = {q: mp.matrix(S[q]) for q in ('A', 'B', 'C', 'D')}
 
-    def quad(Mx, Mu, cc, coef, d, xv):
-        r = M(Mx) * xv + M(Mu) * u + V(cc)
-        for i in range(d):
-            if i < xv.rows:
-                r[i] += mp.mpf(coef[i]) * xv[i] * xv[i]
+    def V(self, a):
+        return self.mp.matrix([[self.mp.mpf(t)] for t in a])
+
+    def f(self, x, u):
+        return self._q('A', 'B', 'c1', 'a', self.n, x, u)
+
+    def h(self, x, u):
+        return self._q('C', 'D', 'c2', 'b', self.m, x, u)
+
+    def _q(self, Mx, Mu, cc, coef, d, x, u):
+        r = self.M[Mx] * x + self.M[Mu] * u + self.V(self.S[cc])
+        for i in range(min(d, x.rows)):
+            r[i] += self.mp.mpf(self.S[coef][i]) * x[i] * x[i]
         return r
 
-    def jac(Mx, coef, xv):
-        J = M(Mx).copy()
+    def jac(self, Mx, coef, x):
+        J = self.M[Mx].copy()
         for i in range(min(J.rows, J.cols)):
-            J[i, i] += 2 * mp.mpf(coef[i]) * xv[i]
+            J[i, i] += 2 * self.mp.mpf(self.S[coef][i]) * x[i]
         return J
-    A, C = jac(S['A'], S['a'], x), jac(S['C'], S['b'], x)
-    xm = quad(S['A'], S['B'], S['c1'], S['a'], n, x)
-    Pm = A * P * A.T + M(c['Q'])
-    Sm = C * Pm * C.T + M(c['R'])
+
+
+def col(v):
+    return [v[i] for i in range(v.rows)]
+
+
+def rows(M):
+    return [[M[i, j] for j in range(M.cols)] for i in range(M.rows)]
+
+
+def oracle_kf(c, innov_at_prior=False):
+    """textbook Kalman predict-then-update for x' = f(x,u), y = h(x',u) linearised at the prior mean (the exact
+    Kalman filter when the system is linear; the documented EKF recursion otherwise).
+    innov_at_prior=True: the recorded deviation of EKF.forward (innovation y - h(x, u) at the pre-transition state)."""
+    mp = mpm()
+    sy = Sysmp(c['S'])
+    x, u, y = sy.V(c['x']), sy.V(c['u']), sy.V(c['y'])
+    P = mp.matrix(c['P'])
+    A, C = sy.jac('A', 'a', x), sy.jac('C', 'b', x)
+    xm = sy.f(x, u)
+    Pm = A * P * A.T + mp.matrix(c['Q'])
+    Sm = C * Pm * C.T + mp.matrix(c['R'])
     K = Pm * C.T * mp.inverse(Sm)
-    e = y - quad(S['C'], S['D'], S['c2'], S['b'], m, x if innov_at_prior else xm)
-    xp = xm + K * e
-    Pp = (mp.eye(n) - K * C) * Pm
-    return [xp[i] for i in range(n)], [[Pp[i, j] for j in range(n)] for i in range(n)], dict(xm=xm, Pm=Pm, Ke=K * e)
+    e = y - sy.h(x if innov_at_prior else xm, u)
+    return col(xm + K * e), rows((mp.eye(sy.n) - K * C) * Pm)
+
+
+def oracle_ukf(c, rows_of_factor=False, mixed_sets=False):
+    """unscented Kalman filter (Simon 14.3) with the lower Cholesky factor L L^T = (n+k) P; sigma points
+    x +- columns of L.  (False, False) is the filter the property describes (= the Kalman filter on linear
+    systems); (True, True) is the recorded deviation of UKF.forward."""
+    mp = mpm()
+    sy = Sysmp(c['S'])
+    n = sy.n
+    k = c.get('k')
+    k = mp.mpf(3 - n if k is None else k)
+    x, u, y = sy.V(c['x']), sy.V(c['u']), sy.V(c['y'])
+    w = [k / (n + k)] + [1 / (2 * (n + k))] * (2 * n)
+
+    def sigma(xc, P):
+        L = mp.cholesky((n + k) * P)
+        dev = [L[i, :].T if rows_of_factor else L[:, i] for i in range(n)]
+        return [xc] + [xc + d for d in dev] + [xc - d for d in dev]
+
+    def wmean(pts):
+        s = pts[0] * 0
+        for wi, p in zip(w, pts):
+            s += wi * p
+        return s
+
+    def wcov(a, b):
+        s = mp.zeros(a[0].rows, b[0].rows)
+        for wi, p, q in zip(w, a, b):
+            s += wi * p * q.T
+        return s
+    xs = [sy.f(p, u) for p in sigma(x, mp.matrix(c['P']))]
+    xe = wmean(xs)
+    ex = [xe - p for p in xs]
+    Pm = wcov(ex, ex) + mp.matrix(c['Q'])
+    s2 = sigma(xe, Pm)
+    if not mixed_sets:
+        ex = [xe - p for p in s2]
+    ys = [sy.h(p, u) for p in s2]
+    ye = wmean(ys)
+    ey = [ye - p for p in ys]
+    Py = wcov(ey, ey) + mp.matrix(c['R'])
+    K = wcov(ex, ey) * mp.inverse(Py)
+    return col(xe + K * (y - ye)), rows(Pm - K * Py * K.T)
 
 
 def scales(c, outx, outP):
     """natural scales of the state and covariance results (for the relative tolerance)"""
     np = np_()
     S = c['S']
-    x = np.array(c['x'])
+    x = np.array(c['x'], dtype=float)
     A = np.array(S['A']) + 2 * np.diag(np.array(S['a']) * x)
-    xm = A @ x * 0 + np.array(S['A']) @ x + np.array(S['B']) @ np.array(c['u']) + np.array(S['c1']) + np.array(S['a']) * x * x
+    xm = np.array(S['A']) @ x + np.array(S['B']) @ np.array(c['u']) + np.array(S['c1']) + np.array(S['a']) * x * x
     Pm = A @ np.array(c['P']) @ A.T + np.array(c['Q'])
     ox, oP = np.array(outx), np.array(outP)
     sx = max(np.abs(xm).max(), np.abs(ox).max(), np.abs(ox - xm).max(), 1e-300)
     sP = max(np.abs(Pm).max(), np.abs(oP).max(), 1e-300)
+    if not (math.isfinite(sx) and math.isfinite(sP)):
+        sx, sP = 1.0, 1.0
     return float(sx), float(sP)
+
+
+def flat(a):
+    return [t for row in a for t in (row if isinstance(row, (list, tuple)) else [row])]
 
 
 def far(a, b, tol):
     """max |a_i - b_i| > tol over flattened lists (b may hold mpf)"""
-    fa = [t for row in a for t in (row if isinstance(row, list) else [row])]
-    fb = [t for row in b for t in (row if isinstance(row, list) else [row])]
+    fa, fb = flat(a), flat(b)
     if len(fa) != len(fb):
         return True
     return any((not math.isfinite(float(p))) or abs(p - q) > tol for p, q in zip(fa, fb))
+
+
+def fl(a):
+    return [[float(t) for t in r] if isinstance(r, (list, tuple)) else float(r) for r in a]
 
 
 def sym_psd_defect(P, scale):
@@ -205,6 +273,216 @@ def sym_psd_defect(P, scale):
     if w.min() < -REL * scale:
         return 'covariance not positive semidefinite: smallest eigenvalue %.6g (scale %.3g)' % (w.min(), scale)
     return None
+
+
+def kval(c):
+    k = c.get('k')
+    return 3 - len(c['x']) if k is None else k
+
+
+def kclass(k):
+    if k is None:
+        return 'None'
+    if k == 0:
+        return '0'
+    if k < 0:
+        return 'neg'
+    return 'pos' if float(k).is_integer() else 'frac'
+
+
+# ------------------------------------------------------------------------------------------------ the property, directly
+def is_spd(M, rel=1e-9):
+    np = np_()
+    A = np.array(M, dtype=float)
+    if not np.all(np.isfinite(A)) or np.abs(A - A.T).max() > rel * max(np.abs(A).max(), 1e-300):
+        return False
+    w = np.linalg.eigvalsh((A + A.T) / 2)
+    return w.min() > rel * max(w.max(), 1e-300)
+
+
+def judge_step(pp, torch, meta):
+    """The clauses of C13 on one filter call of the implementation.  Returns [(key, what)]: recorded
+    deviations come back under their recorded key, anything else under a key of its own.
+    Inputs outside the property's quantifier (P, Q, R not SPD) are not judged."""
+    c, filt, kind = meta['case'], meta['filter'], meta.get('syskind', 'nls')
+    if not (is_spd(c['P']) and is_spd(c['Q']) and is_spd(c['R'])) or not kval(c) > -len(c['x']):
+        return []
+    try:
+        ox, oP = impl_step(pp, torch, filt, c, kind)
+    except Exception as e:      # noqa
+        return [('%s.forward:raises' % filt.upper(), '%s.forward raised %s: %s' % (filt.upper(), type(e).__name__, e))]
+    sx, sP = scales(c, ox, oP)
+    lin = is_linear(c['S'])
+    out = []
+    if filt == 'ekf':
+        kx, kP = oracle_kf(c)
+        if far(oP, kP, REL * sP):
+            out.append(('EKF.forward:covariance-differs-from-kalman-recursion',
+                        'EKF covariance %r differs from (I-KC)(APA^T+Q) = %r' % (oP, fl(kP))))
+        if far(ox, kx, REL * sx):
+            vx, _ = oracle_kf(c, innov_at_prior=True)
+            if not far(ox, vx, REL * sx):
+                out.append((K_EKF, 'EKF mean %r differs from the %s %r and equals the recursion with the innovation y - h(x,u) taken at the pre-transition state'
+                            % (ox, 'Kalman filter' if lin else 'documented recursion', fl(kx))))
+            else:
+                out.append(('EKF.forward:mean-differs-from-kalman-filter-and-from-recorded-deviation',
+                            'EKF mean %r; %s gives %r (recorded deviation would give %r)' % (ox, 'Kalman filter' if lin else 'documented recursion', fl(kx), fl(vx))))
+        d = sym_psd_defect(oP, sP)
+        if d:
+            out.append(('EKF.forward:covariance-invalid', 'EKF: ' + d))
+    else:
+        if lin:
+            kx, kP = oracle_kf(c)
+            if far(ox, kx, REL * sx) or far(oP, kP, REL * sP):
+                vx, vP = oracle_ukf(c, rows_of_factor=True, mixed_sets=True)
+                if not far(ox, vx, REL * sx) and not far(oP, vP, REL * sP):
+                    out.append((K_UKF, 'UKF (k=%r) returns mean %r covariance %r; Kalman filter: %r %r; the result equals the recorded deviation '
+                                '(sigma points from rows of the lower Cholesky factor, Pxy pairing two different sigma sets)' % (kval(c), ox, oP, fl(kx), fl(kP))))
+                else:
+                    out.append(('UKF.forward:differs-from-kalman-filter-and-from-recorded-deviation',
+                                'UKF (k=%r) returns mean %r covariance %r; Kalman filter: %r %r' % (kval(c), ox, oP, fl(kx), fl(kP))))
+        d = sym_psd_defect(oP, sP)
+        if d and (kval(c) >= 0 or 'symmetric' in d or 'finite' in d):
+            out.append(('UKF.forward:covariance-invalid', 'UKF (k=%r): %s' % (kval(c), d)))
+    return out
+
+
+def judge_sigma(pp, torch, c):
+    """sigma_weight_points(x, P, k): weights sum to one, weighted mean x, weighted covariance P"""
+    np = np_()
+    T = lambda v: torch.tensor(v, dtype=torch.float64)
+    ukf = pp.module.UKF(build_system(pp, torch, c['S'], 'nls'))
+    n = len(c['x'])
+    k = kval(c)
+    p, w = ukf.sigma_weight_points(T(c['x']), T(c['P']), k)
+    p, w = np.array(p.tolist()), np.array(w.tolist()).reshape(-1)
+    P, x = np.array(c['P']), np.array(c['x'])
+    out = []
+    if p.shape != (2 * n + 1, n) or abs(w.sum() - 1) > 1e-9:
+        out.append(('UKF.sigma_weight_points:shape-or-weights', 'sigma points %r weights %r' % (p.shape, w.tolist())))
+        return out
+    mean = (w[:, None] * p).sum(0)
+    cov = ((p - x).T * w) @ (p - x)
+    sc = max(np.abs(P).max(), 1e-300)
+    if np.abs(mean - x).max() > REL * max(1.0, np.abs(x).max(), math.sqrt(sc)):
+        out.append(('UKF.sigma_weight_points:mean', 'weighted mean of the sigma points %r differs from x %r' % (mean.tolist(), x.tolist())))
+    if np.abs(cov - P).max() > REL * sc:
+        L = np.linalg.cholesky((n + k) * P)
+        if np.abs(cov - L.T @ L / (n + k)).max() <= REL * sc:
+            out.append((K_UKF_SIG, 'weighted covariance of the sigma points %r differs from P %r and equals L^T L/(n+k) (rows of the lower factor L were added instead of columns)'
+                        % (cov.tolist(), P.tolist())))
+        else:
+            out.append(('UKF.sigma_weight_points:covariance-differs-from-P-and-from-recorded-deviation',
+                        'weighted covariance of the sigma points %r differs from P %r' % (cov.tolist(), P.tolist())))
+    return out
+
+
+def judge_lti(pp, torch, c):
+    """EKF / UKF with pypose's own linear system class"""
+    out = []
+    for filt in ('ekf', 'ukf'):
+        try:
+            ox, oP = impl_step(pp, torch, filt, c, 'lti')
+        except TypeError as e:
+            out.append((K_LTI, '%s(pp.module.LTI(A,B,C,D,c1,c2)) raises TypeError: %s' % (filt.upper(), e)))
+            continue
+        except Exception as e:  # noqa
+            out.append(('%s.forward:model=LTI:raises' % filt.upper(), '%s: %s' % (type(e).__name__, e)))
+            continue
+        # it returns: then it has to be the filter of the nls route
+        rx, rP = impl_step(pp, torch, filt, c, 'nls')
+        sx, sP = scales(c, ox, oP)
+        if far(ox, rx, REL * sx) or far(oP, rP, REL * sP):
+            out.append(('%s.forward:model=LTI:differs-from-NLS-route' % filt.upper(), 'LTI route %r %r, NLS route %r %r' % (ox, oP, rx, rP)))
+    return out
+
+
+# ------------------------------------------------------------------------------------------------ PF with recorded draws
+def pf_run(pp, torch, c, N, seed, kind='nls'):
+    """PF.forward with every random draw and intermediate recorded (the code is called unchanged)"""
+    import torch.distributions.multivariate_normal as mvn
+    T = lambda v: torch.tensor(v, dtype=torch.float64)
+    model = build_system(pp, torch, c['S'], kind)
+    pf = pp.module.PF(model, particles=N)
+    rec = {}
+    o_std, o_lp, o_rand = mvn._standard_normal, mvn.MultivariateNormal.log_prob, torch.rand
+    o_gen, o_rel = pf.generate_particles, pf.relative_likelihood
+
+    def std(*a, **k):
+        r = o_std(*a, **k)
+        rec.setdefault('eps', r.clone())
+        return r
+
+    def lp(self, value):
+        r = o_lp(self, value)
+        rec['logp'] = r.clone()
+        return r
+
+    def rand(*a, **k):
+        r = o_rand(*a, **k)
+        rec['r'] = r.clone()
+        return r
+
+    def gen(x, P):
+        r = o_gen(x, P)
+        rec['xp'] = r.clone()
+        return r
+
+    def rel(y, ye, R):
+        r = o_rel(y, ye, R)
+        rec['q'] = r.clone()
+        rec['ye'] = ye.clone()
+        return r
+    torch.manual_seed(seed)
+    mvn._standard_normal, mvn.MultivariateNormal.log_prob, torch.rand = std, lp, rand
+    pf.generate_particles, pf.relative_likelihood = gen, rel
+    try:
+        x, P = pf(T(c['x']), T(c['y']), T(c['u']), T(c['P']), T(c['Q']), T(c['R']))
+    finally:
+        mvn._standard_normal, mvn.MultivariateNormal.log_prob, torch.rand = o_std, o_lp, o_rand
+    rec['x'], rec['P'] = x, P
+    return {k: v.tolist() for k, v in rec.items()}
+
+
+def pf_posterior_means(c):
+    """closed-form posterior mean of the particle model for a LINEAR system:
+    prior x0 ~ N(x, nP), x- = A x0 + B u + c1 (no process noise on the particles), weights from N(y; h(.), R).
+    documented: h at the propagated particle x-;  as coded: h at the prior particle x0."""
+    mp = mpm()
+    sy = Sysmp(c['S'])
+    n = sy.n
+    x, u, y = sy.V(c['x']), sy.V(c['u']), sy.V(c['y'])
+    A, C = sy.M['A'], sy.M['C']
+    nP = n * mp.matrix(c['P'])
+    R = mp.matrix(c['R'])
+    mu = sy.f(x, u)
+    Sg = A * nP * A.T
+    K = Sg * C.T * mp.inverse(C * Sg * C.T + R)
+    doc = mu + K * (y - sy.h(mu, u))
+    K0 = nP * C.T * mp.inverse(C * nP * C.T + R)
+    x0 = x + K0 * (y - sy.h(x, u))
+    coded = sy.f(x0, u)
+    return [float(t) for t in col(doc)], [float(t) for t in col(coded)]
+
+
+def judge_pf_band(pp, torch, c, N, seed):
+    """Monte-Carlo band: the PF mean against the closed-form posterior mean (linear system).  sigma is the delta-method
+    standard error of the self-normalised importance-sampling estimate plus the multinomial resampling error."""
+    np = np_()
+    rec = pf_run(pp, torch, c, N, seed)
+    doc, coded = pf_posterior_means(c)
+    q = np.array(rec['q'])
+    S = c['S']
+    xs = np.array(rec['xp']) @ np.array(S['A']).T + np.array(S['B']) @ np.array(c['u']) + np.array(S['c1'])
+    est = np.array(rec['x'])
+    m = (q[:, None] * xs).sum(0)
+    var = (q[:, None] ** 2 * (xs - m) ** 2).sum(0) + (q[:, None] * (xs - m) ** 2).sum(0) / N
+    sig = np.sqrt(var)
+    neff = 1.0 / (q ** 2).sum()
+    zdoc = np.abs(est - np.array(doc)) / sig
+    zcod = np.abs(est - np.array(coded)) / sig
+    return dict(est=est.tolist(), documented=doc, coded=coded, sigma=sig.tolist(), z_documented=float(zdoc.max()),
+                z_coded=float(zcod.max()), neff=float(neff), N=N, seed=seed)
 
 
 # ------------------------------------------------------------------------------------------------ Coq literals
@@ -222,11 +500,8 @@ def sys_lit(S):
 
 
 def fcase_lit(i, c, outx, outP, tx, tP):
-    n = len(c['x'])
-    k = c.get('k')
-    k = (3 - n) if k is None else k
     return '(%d%%nat, %s, %s, %s, %s, %s, %s, %s, %s, %s, %s, %s, %s)' % (
-        i, sys_lit(c['S']), qm(c['Q']), qm(c['R']), qv(c['x']), qv(c['y']), qv(c['u']), qm(c['P']), qlit(k),
+        i, sys_lit(c['S']), qm(c['Q']), qm(c['R']), qv(c['x']), qv(c['y']), qv(c['u']), qm(c['P']), qlit(kval(c)),
         qv(outx), qm(outP), qlit(tx), qlit(tP))
 
 
@@ -238,6 +513,10 @@ def shard(items, n):
     return [items[k:k + n] for k in range(0, len(items), n)]
 
 
+def finite(*xs):
+    return all(math.isfinite(float(t)) for x in xs for t in flat(x))
+
+
 # ------------------------------------------------------------------------------------------------ the check
 class Run:
     def __init__(self, ctx):
@@ -245,11 +524,16 @@ class Run:
         self.pp = import_pypose()
         import torch
         self.torch = torch
-        self.cases = {'ekf': [], 'ukf': []}     # (meta, literal)
+        self.lits = {'ekf': [], 'ukf': [], 'pfpart': [], 'pflik': [], 'pfest': []}
         self.metas = []
 
+    def report(self, findings, meta):
+        for key, what in findings:
+            self.ctx.count('finding:' + key.split(':')[0] + (':recorded' if key in self.ctx.known else ':NEW'))
+            self.ctx.violation(key, what, meta)
+
     # ---- one filter call: implementation, oracle, literal for Coq
-    def step_case(self, filt, c, kind='nls', family='step', model=None, oracle=True):
+    def step_case(self, filt, c, kind='nls', family='step', model=None, judge=True):
         ctx = self.ctx
         meta = dict(kind='step', filter=filt, syskind=kind, case=c, family=family)
         try:
@@ -259,106 +543,295 @@ class Run:
             return None
         n = len(c['x'])
         lin = is_linear(c['S'])
-        nontriv = (n >= 2) or not lin
-        ctx.case((filt, kind, repr(c)), nontrivial=nontriv,
-                 branch='%s-%s-n%d-m%d%s' % (filt, 'lin' if lin else 'nonlin', n, len(c['y']), '' if filt == 'ekf' else '-k:' + kclass(c.get('k'), n)),
-                 sample=dict(filter=filt, system=kind, n=n, m=len(c['y']), x=c['x'], P=c['P'], out_x=ox, out_P=oP) if n == 2 else None)
+        ctx.case((filt, kind, repr(c)), nontrivial=(n >= 2) or not lin,
+                 branch='%s-%s-%s-n%d%s' % (filt, kind, 'lin' if lin else 'nonlin', n, '' if filt == 'ekf' else '-k:' + kclass(c.get('k'))),
+                 sample=dict(filter=filt, system=kind, n=n, m=len(c['y']), x=c['x'], P=c['P'], out_x=ox, out_P=oP) if n == 2 and family == 'step' else None)
+        if not finite(ox, oP):
+            ctx.violation('%s.forward:non-finite-result' % filt.upper(), 'result %r %r' % (ox, oP), meta)
+            return None
         sx, sP = scales(c, ox, oP)
-        meta.update(out_x=ox, out_P=oP, sx=sx, sP=sP)
         i = len(self.metas)
         self.metas.append(meta)
-        self.cases[filt].append(fcase_lit(i, c, ox, oP, REL * sx, REL * sP))
-        # the property's own oracle, directly on the implementation
-        if oracle:
-            self.oracle_check(meta)
+        self.lits[filt].append(fcase_lit(i, c, ox, oP, REL * sx, REL * sP))
+        if judge:
+            self.report(judge_step(self.pp, self.torch, meta), meta)
         return ox, oP
 
-    def oracle_check(self, meta):
-        """compare the implementation's result with the textbook filter; classify deviations"""
-        ctx, c, filt = self.ctx, meta['case'], meta['filter']
-        ox, oP, sx, sP = meta['out_x'], meta['out_P'], meta['sx'], meta['sP']
-        lin = is_linear(c['S'])
-        kx, kP, _ = oracle_kf(c)
-        meta['kf_x_ok'] = not far(ox, kx, REL * sx)
-        meta['kf_P_ok'] = not far(oP, kP, REL * sP)
-        if filt == 'ekf':
-            # covariance: the documented recursion, linear or not
-            if not meta['kf_P_ok']:
-                ctx.violation('EKF.forward:covariance-differs-from-kalman-recursion',
-                              'EKF covariance differs from (I-KC)(APA^T+Q): got %r expected %r' % (oP, [[float(t) for t in r] for r in kP]), meta)
-            if not meta['kf_x_ok']:
-                vx, _, _ = oracle_kf(c, innov_at_prior=True)
-                if not far(ox, vx, REL * sx):
-                    meta['known'] = K_EKF
-                    ctx.count('ekf-mean-deviates-as-recorded')
-                    ctx.violation(K_EKF, 'EKF mean differs from the Kalman filter and equals the filter with the innovation y - h(x,u) taken at the pre-transition state', meta)
-                else:
-                    ctx.violation('EKF.forward:mean-differs-from-kalman-filter-and-from-recorded-deviation',
-                                  'EKF mean %r: Kalman filter gives %r' % (ox, [float(t) for t in kx]), meta)
-            else:
-                ctx.count('ekf-mean-equals-kf')
-        else:
-            if lin and not (meta['kf_x_ok'] and meta['kf_P_ok']):
-                meta['pending_ukf'] = True       # classified after the model tie (recorded deviation iff model = implementation)
-            elif lin:
-                ctx.count('ukf-equals-kf')
-            # covariance validity: symmetric, and PSD when the centre weight is non-negative
-            k = c.get('k')
-            k = 3 - len(c['x']) if k is None else k
-            d = sym_psd_defect(oP, sP)
-            if d and (k >= 0 or 'symmetric' in d):
-                ctx.violation('UKF.forward:covariance-invalid', 'UKF (k=%r): %s' % (k, d), meta)
-        if filt == 'ekf':
-            d = sym_psd_defect(oP, sP)
-            if d:
-                ctx.violation('EKF.forward:covariance-invalid', 'EKF: ' + d, meta)
+    # ---- a run: the user's loop around forward
+    def run_case(self, filt, rng, n, m, p, T, nonlinear=False, kind='nls', k=None):
+        c0 = gen_case(rng, n, m, p, nonlinear=nonlinear, k=k)
+        model = build_system(self.pp, self.torch, c0['S'], kind)
+        x, P = c0['x'], c0['P']
+        for t in range(T):
+            c = dict(c0, x=x, P=P, u=[rng.gauss(0, 1) for _ in range(p)], y=[rng.gauss(0, 1) * 3 for _ in range(m)])
+            r = self.step_case(filt, c, kind, family='run', model=model, judge=(t % 5 == 4 or t < 2))
+            if r is None:
+                break
+            x, P = r
+            if not is_spd(P):
+                # the state left the property's quantifier (possible for the UKF with a negative centre weight)
+                self.ctx.count('run-stopped-covariance-not-spd-' + filt)
+                break
+            self.ctx.count('run-steps-' + filt)
+        self.ctx.traces += 1
+
+    # ---- PF
+    def pf_case(self, c, N, seed, kind='nls'):
+        ctx, np = self.ctx, np_()
+        meta = dict(kind='pf', case=c, N=N, seed=seed, syskind=kind)
+        try:
+            rec = pf_run(self.pp, self.torch, c, N, seed, kind)
+        except Exception as e:  # noqa
+            ctx.violation('PF.forward:raises', 'PF.forward raised %s: %s' % (type(e).__name__, e), meta)
+            return
+        n = len(c['x'])
+        ctx.case(('pf', N, seed, repr(c)), nontrivial=True, branch='pf-%s-n%d-N%d' % ('lin' if is_linear(c['S']) else 'nonlin', n, N))
+        i = len(self.metas)
+        self.metas.append(meta)
+        sxp = max(np.abs(np.array(rec['xp'])).max(), 1e-300)
+        self.lits['pfpart'].append('(%d%%nat, %s, %s, %s, %s, %s)' % (i, qv(c['x']), qm(c['P']), qm(rec['eps']), qm(rec['xp']), qlit(REL * sxp)))
+        lp = rec['logp']
+        sl = max(1.0, max(abs(t - lp[0]) for t in lp))
+        self.lits['pflik'].append('(%d%%nat, %s, %s, %s, %s, %s, %s, %s)' % (i, sys_lit(c['S']), qm(c['R']), qv(c['y']), qv(c['u']), qm(rec['xp']), qv(lp), qlit(REL * sl)))
+        S = c['S']
+        xs = np.array(rec['xp'])
+        xs = xs @ np.array(S['A']).T + np.array(S['B']) @ np.array(c['u']) + np.array(S['c1']) + np.array(S['a']) * xs * xs
+        se = max(np.abs(xs).max() ** 2, np.abs(np.array(rec['P'])).max(), np.abs(xs).max(), 1e-300)
+        self.lits['pfest'].append('(%d%%nat, %s, %s, %s, %s, %s, %s, %s, %s, %s)' % (
+            i, sys_lit(c['S']), qm(c['Q']), qv(c['u']), qm(rec['xp']), qv(rec['q']), qv(rec['r']), qv(rec['x']), qm(rec['P']), qlit(REL * se)))
+        meta['rec'] = {k: rec[k] for k in ('q', 'logp', 'x', 'P')}
+        # softmax and covariance validity, directly
+        mp = mpm()
+        mx = max(lp)
+        e = [mp.exp(mp.mpf(t) - mx) for t in lp]
+        s = sum(e)
+        if any(abs(float(a / s) - b) > 1e-9 for a, b in zip(e, rec['q'])):
+            ctx.violation('PF.relative_likelihood:not-softmax-of-log-likelihood', 'weights %r for log-likelihoods %r' % (rec['q'], lp), meta)
+        d = sym_psd_defect(rec['P'], max(np.abs(np.array(rec['P'])).max(), 1e-300))
+        if d:
+            ctx.violation('PF.forward:covariance-invalid', 'PF: ' + d, meta)
 
     # ---- Coq
     def run_coq(self):
         ctx = self.ctx
         files = []
-        for filt, per in (('ekf', 40), ('ukf', 25)):
-            for si, sh in enumerate(shard(self.cases[filt], per)):
-                files.append(('%s_%03d' % (filt, si), HDR + 'Eval vm_compute in %s_bad %s.\n' % (filt, coq_list(sh))))
+        for fam, fn, per in (('ekf', 'ekf_bad', 60), ('ukf', 'ukf_bad', 40), ('pfpart', 'pf_part_bad', 40), ('pflik', 'pf_lik_bad', 40),
+                             ('pfest', 'pf_est_codes', 40)):
+            for si, sh in enumerate(shard(self.lits[fam], per)):
+                files.append(('%s_%03d' % (fam, si), HDR + 'Eval vm_compute in %s %s.\n' % (fn, coq_list(sh))))
         res = run_case_files('C13', files, timeout=170)
-        bad = set()
         for name, (rc, out) in sorted(res.items()):
             ev = parse_evals(out)
             if rc != 0 or len(ev) != 1:
                 ctx.obligation_broken('correspondence-file:' + name, out[-1500:])
                 continue
-            bad.update(parse_nat_list(ev[0]))
-        for i in sorted(bad):
-            self.metas[i]['tie_bad'] = True
-            ctx.mismatch('%s-step' % self.metas[i]['filter'], strip(self.metas[i]))
-        return bad
+            fam = name.split('_')[0]
+            if fam == 'pfest':
+                for mm in re.finditer(r'\((\d+)(?:%nat)?,\s*(\d+)(?:%nat)?\)', ev[0]):
+                    i, code = int(mm.group(1)), int(mm.group(2))
+                    ctx.count('pf-estimate-' + {0: 'agrees', 1: 'DISAGREES', 2: 'undecided(uniform at a boundary)'}[code])
+                    if code == 1:
+                        ctx.mismatch('pf-estimate', strip(self.metas[i]))
+                continue
+            for i in parse_nat_list(ev[0]):
+                fam2 = {'ekf': 'ekf-step', 'ukf': 'ukf-step', 'pfpart': 'pf-particles', 'pflik': 'pf-loglik'}[fam]
+                ctx.mismatch(fam2, strip(self.metas[i]))
 
 
 def strip(meta):
-    return {k: v for k, v in meta.items() if k not in ('pending_ukf',)}
+    return {k: v for k, v in meta.items() if k != 'rec'}
 
 
-def kclass(k, n):
-    if k is None:
-        return 'None'
-    if k == 0:
-        return '0'
-    if k < 0:
-        return 'neg'
-    return 'pos' if float(k).is_integer() else 'frac'
+# ------------------------------------------------------------------------------------------------ witnesses of Props/C13.v
+W_EKF = dict(S=dict(A=[[1.0, 1.0], [0.0, 1.0]], B=[[0.0], [1.0]], C=[[1.0, 0.0]], D=[[0.0]], c1=[0.0, 0.0], c2=[0.0], a=[0.0, 0.0], b=[0.0]),
+             Q=[[1.0, 0.5], [0.5, 1.0]], R=[[1.0]], P=[[2.0, 1.0], [1.0, 2.0]], x=[1.0, 1.0], u=[0.0], y=[0.0], k=None)
+W_UKF1 = dict(S=dict(A=[[1.0]], B=[[0.0]], C=[[1.0]], D=[[0.0]], c1=[0.0], c2=[0.0], a=[0.0], b=[0.0]),
+              Q=[[3.0]], R=[[1.0]], P=[[1.0]], x=[0.0], u=[0.0], y=[1.0], k=3)
+W_UKF2 = dict(S=dict(A=[[1.0, 0.0], [0.0, 1.0]], B=[[0.0], [0.0]], C=[[1.0, 0.0], [0.0, 1.0]], D=[[0.0], [0.0]], c1=[0.0, 0.0], c2=[0.0, 0.0],
+                     a=[0.0, 0.0], b=[0.0, 0.0]),
+              Q=[[1.0, 0.5], [0.5, 1.0]], R=[[1.0, 0.0], [0.0, 1.0]], P=[[1.0, 0.5], [0.5, 0.5]], x=[0.0, 0.0], u=[0.0], y=[1.0, -1.0], k=2)
+W_PF = dict(S=dict(A=[[1.0, 1.0], [0.0, 1.0]], B=[[0.0], [1.0]], C=[[1.0, 0.0]], D=[[0.0]], c1=[0.0, 0.0], c2=[0.0], a=[0.0, 0.0], b=[0.0]),
+            Q=[[1.0, 0.5], [0.5, 1.0]], R=[[1.0]], P=[[2.0, 1.0], [1.0, 2.0]], x=[1.0, 1.0], u=[0.0], y=[0.0], k=None)
 
 
+def witnesses(R):
+    ctx, pp, torch = R.ctx, R.pp, R.torch
+    # EKF: Coq says the code returns (9/8, 9/16), the Kalman filter (1/4, 1/8)
+    r = R.step_case('ekf', W_EKF, family='witness')
+    if r is not None and far(r[0], [9 / 8, 9 / 16], 1e-12):
+        ctx.mismatch('witness-ekf', dict(kind='step', filter='ekf', syskind='nls', case=W_EKF, got=r[0], model=[9 / 8, 9 / 16]))
+    # UKF 1-d: code (2/5, 16/5), Kalman filter (4/5, 4/5)
+    r = R.step_case('ukf', W_UKF1, family='witness')
+    if r is not None and (far(r[0], [2 / 5], 1e-12) or far(r[1], [[16 / 5]], 1e-12)):
+        ctx.mismatch('witness-ukf1', dict(kind='step', filter='ukf', syskind='nls', case=W_UKF1, got=r, model=[[2 / 5], [[16 / 5]]]))
+    # UKF 2-d: sigma points
+    R.step_case('ukf', W_UKF2, family='witness')
+    meta = dict(kind='sigma', case=W_UKF2)
+    ctx.case(('sigma', repr(W_UKF2)), branch='sigma-points-nondiag')
+    R.report(judge_sigma(pp, torch, W_UKF2), meta)
+    # pypose.module.LTI as the model
+    meta = dict(kind='lti', case=W_EKF)
+    ctx.case(('lti', repr(W_EKF)), branch='lti-model')
+    R.report(judge_lti(pp, torch, W_EKF), meta)
+    # PF: documented vs coded posterior mean, 200000 particles, fixed seed
+    meta = dict(kind='pfband', case=W_PF, N=200000, seed=12345)
+    ctx.case(('pfband', 'witness'), branch='pf-band')
+    R.report(judge_pf(pp, torch, meta), meta)
+
+
+def judge_pf(pp, torch, meta):
+    b = judge_pf_band(pp, torch, meta['case'], meta['N'], meta['seed'])
+    out = []
+    if b['z_documented'] > 6:
+        if b['z_coded'] <= 6:
+            out.append((K_PF, 'PF mean %r (N=%d, N_eff=%.0f) is %.1f sigma from the posterior mean of the documented particle model %r and %.1f sigma from '
+                        'the model with the likelihood evaluated at the pre-transition particles %r' % (b['est'], b['N'], b['neff'], b['z_documented'], b['documented'], b['z_coded'], b['coded'])))
+        else:
+            out.append(('PF.forward:mean-outside-6-sigma-of-documented-and-of-recorded-model',
+                        'PF mean %r; documented %r (%.1f sigma), recorded deviation %r (%.1f sigma)' % (b['est'], b['documented'], b['z_documented'], b['coded'], b['z_coded'])))
+    return out
+
+
+# ------------------------------------------------------------------------------------------------ run
 def run(ctx):
     ctx.rule = RULE
     R = Run(ctx)
     rng = ctx.rng
-    for filt in ('ekf', 'ukf'):
-        for t in range(ctx.scale(10, 100)):
-            n, m, p = rng.randint(1, 6), rng.randint(1, 6), rng.randint(1, 6)
-            k = rng.choice(['none', 0, 1, 2, 3, 0.5, -0.5, 2.75])
-            R.step_case(filt, gen_case(rng, n, m, p, nonlinear=(t % 3 == 0), k=k))
+    pp, torch = R.pp, R.torch
+    witnesses(R)
+    # ---- directed single steps: every state dimension, both system classes, k classes, extreme scales
+    for n in range(1, 7):
+        m, p = (n % 3) + 1, (n % 2) + 1
+        for filt in ('ekf', 'ukf'):
+            R.step_case(filt, gen_case(rng, n, m, p, k=None), 'nls', family='directed')
+            R.step_case(filt, gen_case(rng, n, 7 - n if n < 6 else 6, p, k=0 if filt == 'ukf' else None), 'sys', family='directed')
+            R.step_case(filt, gen_case(rng, n, m, p, nonlinear=True, k=rng.choice([1, 2.5])), 'nls', family='directed')
+    for sc in ([1e-3, 1e3, 1.0], [1e3, 1e-3, 1e3], [1e-3, 1e-3, 1e3], [1e3, 1e3, 1e-3], [1e-3, 1e-3, 1e-3], [1e3, 1e3, 1e3]):
+        for filt in ('ekf', 'ukf'):
+            R.step_case(filt, gen_case(rng, 3, 2, 1, scales=sc, k=rng.choice([None, 1])), 'nls', family='directed')
+    for k in (None, 0, 1, 3, 0.5, 2.75, -0.5, -1.5):
+        R.step_case('ukf', gen_case(rng, 3, 2, 2, k=k), 'nls', family='directed')
+    # sigma points: diagonal P must reproduce (x, P); non-diagonal P is the recorded finding
+    for n in (1, 2, 4):
+        for diag in (True, False):
+            c = gen_case(rng, n, 1, 1, k=rng.choice([None, 1, 0.5]), diagonal=diag)
+            ctx.case(('sigma', repr(c)), branch='sigma-points-' + ('diag' if diag or n == 1 else 'nondiag'))
+            R.report(judge_sigma(pp, torch, c), dict(kind='sigma', case=c))
+    # ---- random single steps
+    for t in range(ctx.scale(60, 1500)):
+        filt = 'ekf' if t % 2 == 0 else 'ukf'
+        n, m, p = rng.randint(1, 6), rng.randint(1, 6), rng.randint(1, 4)
+        nonlin = rng.random() < 0.3
+        k = rng.choice([None, None, 0, 1, 2, 3, 0.5, 2.75, -0.5 if n >= 1 else 0, -0.25 * n])
+        kind = 'sys' if (not nonlin and rng.random() < 0.3) else 'nls'
+        R.step_case(filt, gen_case(rng, n, m, p, nonlinear=nonlin, k=k if filt == 'ukf' else None, diagonal=rng.random() < 0.1), kind)
+    # ---- runs
+    plan = [(6, 4, 2, 50), (2, 2, 1, 50), (3, 5, 1, 30), (1, 1, 1, 50)] if not ctx.thorough else \
+        [(rng.randint(1, 6), rng.randint(1, 6), rng.randint(1, 3), rng.choice([50, 50, 20, 35])) for _ in range(30)]
+    for (n, m, p, T) in plan:
+        for filt in ('ekf', 'ukf'):
+            R.run_case(filt, rng, n, m, p, T, nonlinear=(n == 3), k=None if filt == 'ekf' else rng.choice([None, 1, 0.5]))
+    # ---- PF: recorded draws against the model
+    for t in range(ctx.scale(24, 300)):
+        n, m, p = rng.randint(1, 3), rng.randint(1, 3), rng.randint(1, 2)
+        c = gen_case(rng, n, m, p, nonlinear=(t % 3 == 2), scales=[10.0 ** rng.uniform(-2, 2) for _ in range(3)])
+        # measurements near the predicted observation keep the weights from collapsing onto one particle
+        np = np_()
+        S = c['S']
+        ypred = np.array(S['C']) @ np.array(c['x']) + np.array(S['D']) @ np.array(c['u']) + np.array(S['c2'])
+        c['y'] = [float(v + rng.gauss(0, 1) * math.sqrt(max(c['R'][i][i], 1e-12))) for i, v in enumerate(ypred)]
+        R.pf_case(c, rng.choice([1, 2, 5, 8, 12]), rng.randint(0, 10 ** 6), kind='nls' if t % 4 else ('sys' if is_linear(S) else 'nls'))
+    # ---- PF: Monte-Carlo band on random linear systems (as-coded model must be met; the documented one is the finding)
+    for t in range(ctx.scale(3, 20)):
+        n, m = rng.randint(1, 3), rng.randint(1, 2)
+        c = gen_case(rng, n, m, 1, scales=[1.0, 10.0 ** rng.uniform(-0.5, 0.5), 10.0 ** rng.uniform(-0.5, 0.5)])
+        np = np_()
+        S = c['S']
+        ypred = np.array(S['C']) @ np.array(c['x']) + np.array(S['D']) @ np.array(c['u']) + np.array(S['c2'])
+        c['y'] = [float(v + rng.gauss(0, 1)) for v in ypred]
+        meta = dict(kind='pfband', case=c, N=ctx.scale(20000, 200000), seed=rng.randint(0, 10 ** 6))
+        ctx.case(('pfband', repr(c)), branch='pf-band')
+        R.report(judge_pf(pp, torch, meta), meta)
+    # ---- Coq
     R.run_coq()
+    ctx.notes.append('model evaluated by vm_compute in 320-bit binary fixed point (Bignums BigZ); tolerance %g of the natural scale' % REL)
+    ctx.assumptions += ['torch.linalg.pinv is the inverse on SPD input (pinv_ok)', 'torch.linalg.cholesky returns the lower factor (cholesky_ok)',
+                        'time argument t of the system callbacks not modelled']
+    # ---- search: the property directly on the mismatching inputs
+    for mm in ctx.mismatches[:40]:
+        why = replay(ctx, mm['case'], new_only=True)
+        if why:
+            mm['explained'] = True
+            ctx.violation(why[0], why[1], mm['case'])
 
 
-def replay(ctx, case):
-    return None
+def replay(ctx, case, new_only=False):
+    """re-run one case against the property's oracle.  Returns a description (still failing) or None.
+    new_only (search after a model/implementation mismatch): only deviations that are not recorded findings count."""
+    pp = import_pypose()
+    import torch
+    kind = case.get('kind')
+    if kind == 'step':
+        res = judge_step(pp, torch, case)
+    elif kind == 'sigma':
+        res = judge_sigma(pp, torch, case['case'])
+    elif kind == 'lti':
+        res = judge_lti(pp, torch, case['case'])
+    elif kind == 'pfband':
+        res = judge_pf(pp, torch, case)
+    elif kind == 'pf':
+        res = judge_pf_parts(pp, torch, case)
+    else:
+        res = []
+    if new_only:
+        res = [r for r in res if r[0] not in ctx.known]
+        return res[0] if res else None
+    return '; '.join('%s: %s' % r for r in res) if res else None
+
+
+def judge_pf_parts(pp, torch, case):
+    """deterministic parts of PF.forward with the draws recorded, against numpy formulas written from the
+    property text (prior N(x, nP); Gaussian likelihood; cumulative-sum resampling; mean and covariance)"""
+    np = np_()
+    c, N, seed = case['case'], case['N'], case['seed']
+    rec = pf_run(pp, torch, c, N, seed, case.get('syskind', 'nls'))
+    out = []
+    n = len(c['x'])
+    S = c['S']
+    xp, eps = np.array(rec['xp']), np.array(rec['eps'])
+    L = np.linalg.cholesky(n * np.array(c['P']))
+    if np.abs(xp - (np.array(c['x']) + eps @ L.T)).max() > REL * max(np.abs(xp).max(), 1e-300):
+        out.append(('PF.generate_particles:not-x+chol(nP)eps', 'particles %r for draws %r' % (xp.tolist(), eps.tolist())))
+
+    def fq(Mx, Mu, cc, coef, d, X):
+        sq = X * X
+        pad = np.zeros((X.shape[0], d))
+        pad[:, :min(d, X.shape[1])] = sq[:, :min(d, X.shape[1])]
+        return X @ np.array(S[Mx]).T + np.array(S[Mu]) @ np.array(c['u']) + np.array(S[cc]) + np.array(S[coef]) * pad
+    xs = fq('A', 'B', 'c1', 'a', n, xp)
+    Ri = np.linalg.inv(np.array(c['R']))
+    lp = np.array(rec['logp'])
+
+    def ll(at):
+        d = np.array(c['y']) - fq('C', 'D', 'c2', 'b', len(c['y']), at)
+        return -0.5 * np.einsum('ij,jk,ik->i', d, Ri, d)
+    tol = REL * max(1.0, np.abs(lp - lp[0]).max())
+    coded, doc = ll(xp), ll(xs)
+    if np.abs((lp - lp[0]) - (doc - doc[0])).max() > tol:
+        if np.abs((lp - lp[0]) - (coded - coded[0])).max() <= tol:
+            if N > 1 and np.abs((coded - coded[0]) - (doc - doc[0])).max() > tol:
+                out.append((K_PF, 'log-likelihoods are those of the pre-transition particles'))
+        else:
+            out.append(('PF.relative_likelihood:not-gaussian-likelihood', 'log_prob %r' % lp.tolist()))
+    q, r = np.array(rec['q']), np.array(rec['r'])
+    cs = np.cumsum(q)
+    if all(np.abs(cs - ri).min() > 1e-9 for ri in r):
+        idx = np.searchsorted(cs, r)
+        if idx.max() < N:
+            xr = xs[idx]
+            mean = xr.mean(0)
+            cov = np.array(c['Q']) + (xr - mean).T @ (xr - mean) / N
+            se = max(np.abs(xs).max() ** 2, np.abs(cov).max(), 1e-300)
+            if np.abs(mean - np.array(rec['x'])).max() > REL * se or np.abs(cov - np.array(rec['P'])).max() > REL * se:
+                out.append(('PF.forward:resampled-mean-or-covariance', 'mean %r cov %r; expected %r %r' % (rec['x'], rec['P'], mean.tolist(), cov.tolist())))
+    return out
